@@ -64,6 +64,10 @@ def classify(g):
                 return "NOCLONES", pol
         if op == "<" and a == "0" and b.startswith("len(") and b.endswith("tree_roots)"):
             return "HASROOTS", pol
+        if op == "<" and a == "0" and b.startswith("len(") and (b.endswith(".nodes)") or b.endswith("tree_nodes)") or b.endswith(".roots)")):
+            return "NOCLONES", not pol  # 0 < len(nodes): the opposite of "no clone yet"
+        if op == "<" and a == "0" and b.endswith(".get_number_of_nodes()"):
+            return "NOCLONES", not pol
     # a test this analysis cannot relate to a state of sample(): it constrains nothing, so the paths it
     # guards must agree with the accounted probability of every cell they are otherwise consistent with
     return "OTHER:" + show(g), pol
@@ -75,6 +79,22 @@ def expand_paths(paths):
     disjunction of the adapted arm is one state of its own and is left alone."""
     from ..termflow import g_not
 
+    g_not_ = g_not
+    # a path whose value is chosen by a test inside an inlined helper (`self._propose_first(u < p)`) is one path per choice
+    from ..termflow import TRUE as _T, poly_from_key as _pfk, _is_polykey as _ipk
+
+    split = []
+    for guards, val in paths:
+        a = val.as_atom() if isinstance(val, Poly) else None
+        if a is not None and a[0] == "cond" and all(_ipk(k) for _, k in a[1]):
+            earlier = []
+            for g, k in a[1]:
+                extra = [g_not_(x) for x in earlier] + ([g] if g != _T else [])
+                split.append((list(guards) + extra, _pfk(k)))
+                earlier.append(g)
+        else:
+            split.append((guards, val))
+    paths = split
     out = []
     for guards, val in paths:
         alts = [[]]
@@ -83,6 +103,20 @@ def expand_paths(paths):
             while core[0] == "not":
                 core = core[1]
                 pol = not pol
+            if core[0] == "and":
+                # (A and B) holds: both hold.  not (A and B): not A, or A and not B — state tests first
+                def is_u2(x):
+                    try:
+                        return classify(x)[0] == "U"
+                    except AnalysisError:
+                        return False
+                conj = [x for x in core[1] if not is_u2(x)] + [x for x in core[1] if is_u2(x)]
+                if pol:
+                    alts = [a + list(conj) for a in alts]
+                else:
+                    branches = [list(conj[:i]) + [g_not(x)] for i, x in enumerate(conj)]
+                    alts = [a + b for a in alts for b in branches]
+                continue
             if core[0] == "or":
                 try:
                     kinds = sorted(classify(x) for x in core[1])
